@@ -38,9 +38,14 @@ Section AddrTextProofs.
 
   (* codec laws: decoding what the encoder produced returns the data (discharged by the codec
      theorems where these pipelines are instantiated) *)
-  Hypothesis bech32_rt : forall hrp d s, bech32_enc hrp d = Ok s -> bech32_dec hrp s = Ok d.
-  Hypothesis segwit_rt : forall hrp v p s, segwit_enc hrp v p = Ok s -> segwit_dec hrp s = Ok (v, p).
-  Hypothesis cash_rt : forall hrp nv d s, cash_enc hrp nv d = Ok s -> cash_dec hrp s = Ok (nv, d).
+  Variable hrp_cond : list N -> Prop.                 (* what the codec theorem needs of an HRP *)
+  Variable prog_cond : N -> list N -> Prop.           (* the witness version / program rule *)
+  Hypothesis bech32_rt : forall hrp d s, hrp_cond hrp -> bytes_ok d -> d <> [] ->
+    bech32_enc hrp d = Ok s -> bech32_dec hrp s = Ok d.
+  Hypothesis segwit_rt : forall hrp v p s, hrp_cond hrp -> bytes_ok p -> prog_cond v p ->
+    segwit_enc hrp v p = Ok s -> segwit_dec hrp s = Ok (v, p).
+  Hypothesis cash_rt : forall hrp b d s, hrp_cond hrp -> b < 256 -> bytes_ok d ->
+    cash_enc hrp [b] d = Ok s -> cash_dec hrp s = Ok ([b], d).
   Variable alph_ok : option (list N) -> Prop.
   Hypothesis b32_rt : forall al d s, alph_ok al -> bytes_ok d -> b32_enc_nopad al d = Ok s -> b32_dec al s = Ok d.
   Hypothesis s5_ok : forall x, bytes_ok (sha512_256 x).
@@ -53,39 +58,48 @@ Section AddrTextProofs.
   Lemma h160_len x : length (h160 x) = hash160_len.
   Proof. unfold hash160. rewrite rip_len. reflexivity. Qed.
 
-  Lemma bech32_fixed_rt hrp d n s : bech32_enc hrp d = Ok s -> length d = n ->
-    bech32_fixed_decode bech32_dec hrp n s = Ok d.
+  Lemma nonempty_of_len (d : list N) n : length d = n -> (0 < n)%nat -> d <> [].
+  Proof. intros L P E. subst d. simpl in L. lia. Qed.
+
+  Lemma bech32_fixed_rt hrp d n s : hrp_cond hrp -> bytes_ok d -> (0 < n)%nat ->
+    bech32_enc hrp d = Ok s -> length d = n -> bech32_fixed_decode bech32_dec hrp n s = Ok d.
   Proof.
-    intros E Hl. unfold bech32_fixed_decode. rewrite (bech32_rt _ _ _ E). rewrite c2v_ok. cbn [bind Ok].
+    intros Hh Hd Hn E Hl. unfold bech32_fixed_decode.
+    rewrite (bech32_rt _ _ _ Hh Hd (nonempty_of_len d n Hl Hn) E). rewrite c2v_ok. cbn [bind Ok].
     rewrite validate_length_ok by exact Hl. reflexivity.
   Qed.
 
-  Theorem atom_decode_encode hrp pub s :
-    atom_encode sha256 ripemd160 bech32_enc hrp pub = Ok s -> atom_decode bech32_dec hrp s = Ok (h160 pub).
-  Proof. intros E. eapply bech32_fixed_rt; [exact E|apply h160_len]. Qed.
+  Lemma h160_ok x : bytes_ok (h160 x).
+  Proof. unfold hash160. apply rip_ok. Qed.
 
-  Theorem avax_decode_encode prefix hrp pub s :
+  Theorem atom_decode_encode hrp pub s : hrp_cond hrp ->
+    atom_encode sha256 ripemd160 bech32_enc hrp pub = Ok s -> atom_decode bech32_dec hrp s = Ok (h160 pub).
+  Proof. intros Hh E. eapply bech32_fixed_rt; [exact Hh|apply h160_ok|vm_compute; lia|exact E|apply h160_len]. Qed.
+
+  Theorem avax_decode_encode prefix hrp pub s : hrp_cond hrp ->
     avax_encode sha256 ripemd160 bech32_enc prefix hrp pub = Ok s ->
     avax_decode bech32_dec prefix hrp s = Ok (h160 pub).
   Proof.
-    unfold avax_encode, avax_decode.
+    intros Hh. unfold avax_encode, avax_decode.
     destruct (atom_encode sha256 ripemd160 bech32_enc hrp pub) as [a|] eqn:E; cbn [rmap]; [|discriminate].
-    intros H; inversion H; subst s. rewrite remove_prefix_app. cbn [bind Ok].
-    apply atom_decode_encode; exact E.
+    intros H. assert (Hs : s = prefix ++ a) by (unfold Ok in H; congruence). subst s.
+    rewrite remove_prefix_app. cbn [bind Ok]. apply atom_decode_encode; assumption.
   Qed.
 
-  Theorem egld_decode_encode pub s : egld_encode bech32_enc pub = Ok s ->
+  Theorem egld_decode_encode pub s : hrp_cond egld_hrp -> bytes_ok pub -> egld_encode bech32_enc pub = Ok s ->
     length pub = (ed25519_compr_len - 1)%nat -> valid_pub 2 pub = true ->
     egld_decode valid_pub bech32_dec s = Ok pub.
   Proof.
-    intros E Hl Hv. unfold egld_decode. rewrite (bech32_fixed_rt _ _ _ _ E Hl).
+    intros Hh Hb E Hl Hv. unfold egld_decode.
+    assert (Hn : (0 < ed25519_compr_len - 1)%nat) by (vm_compute; lia).
+    rewrite (bech32_fixed_rt egld_hrp pub _ s Hh Hb Hn E Hl).
     cbn [bind Ok]. rewrite Hv. reflexivity.
   Qed.
 
-  Theorem zil_decode_encode pub s : zil_encode sha256 bech32_enc pub = Ok s ->
+  Theorem zil_decode_encode pub s : hrp_cond zil_hrp -> zil_encode sha256 bech32_enc pub = Ok s ->
     zil_decode bech32_dec s = Ok (take_last zil_hash_len (sha256 pub)).
   Proof.
-    intros E. unfold zil_decode. eapply bech32_fixed_rt; [exact E|].
+    intros Hh E. unfold zil_decode. eapply bech32_fixed_rt; [exact Hh|apply bytes_ok_skipn, sha_ok|vm_compute; lia|exact E|].
     unfold take_last. rewrite skipn_length, sha_len. reflexivity.
   Qed.
 
@@ -103,23 +117,26 @@ Section AddrTextProofs.
     - rewrite (dg_len keccak256 kec_len), to_hex_length. unfold D. rewrite skipn_length, kec_len. simpl. lia.
   Qed.
 
-  Theorem inj_decode_encode pub_u s :
+  Lemma eth20_len pub_u : length (skipn 12 (keccak256 (tl pub_u))) = 20%nat.
+  Proof. rewrite skipn_length, kec_len. reflexivity. Qed.
+
+  Theorem inj_decode_encode pub_u s : hrp_cond inj_hrp ->
     ethb32_encode keccak256 bech32_enc inj_hrp pub_u = Ok s ->
     inj_decode bech32_dec s = Ok (skipn 12 (keccak256 (tl pub_u))).
   Proof.
-    unfold ethb32_encode. rewrite eth_bytes_spec. cbn [bind Ok]. intros E.
-    unfold inj_decode. eapply bech32_fixed_rt; [exact E|].
-    rewrite skipn_length, kec_len. reflexivity.
+    intros Hh. unfold ethb32_encode. rewrite eth_bytes_spec. cbn [bind Ok]. intros E.
+    unfold inj_decode. eapply bech32_fixed_rt; [exact Hh|apply bytes_ok_skipn, kec_ok|vm_compute; lia|exact E|apply eth20_len].
   Qed.
 
-  Theorem ethb32_decode_encode hrp pub_u s :
+  Theorem ethb32_decode_encode hrp pub_u s : hrp_cond hrp ->
     ethb32_encode keccak256 bech32_enc hrp pub_u = Ok s ->
     ethb32_decode keccak256 bech32_dec hrp s = Ok (skipn 12 (keccak256 (tl pub_u))).
   Proof.
-    unfold ethb32_encode. rewrite eth_bytes_spec. cbn [bind Ok]. intros E.
+    intros Hh. unfold ethb32_encode. rewrite eth_bytes_spec. cbn [bind Ok]. intros E.
     set (D := skipn 12 (keccak256 (tl pub_u))) in *.
     assert (HD : bytes_ok D) by (apply bytes_ok_skipn, kec_ok).
-    unfold ethb32_decode. rewrite (bech32_rt _ _ _ E). rewrite c2v_ok. cbn [bind Ok].
+    assert (ND : D <> []) by (apply (nonempty_of_len D 20); [apply eth20_len|lia]).
+    unfold ethb32_decode. rewrite (bech32_rt _ _ _ Hh HD ND E). rewrite c2v_ok. cbn [bind Ok].
     unfold eth_decode. rewrite remove_prefix_app. cbn [bind Ok].
     assert (LD : length (to_hex D) = eth_addr_len).
     { rewrite to_hex_length. subst D. rewrite skipn_length, kec_len. reflexivity. }
@@ -127,36 +144,39 @@ Section AddrTextProofs.
     cbn [bind Ok]. rewrite to_hex_all_hex by exact HD. cbn [negb andb]. apply from_hex_to_hex, HD.
   Qed.
 
-  Theorem p2wpkh_decode_encode hrp pub s :
+  Theorem p2wpkh_decode_encode hrp pub s : hrp_cond hrp -> prog_cond p2wpkh_wit_ver (h160 pub) ->
     p2wpkh_encode sha256 ripemd160 segwit_enc hrp pub = Ok s ->
     p2wpkh_decode segwit_dec hrp s = Ok (h160 pub).
   Proof.
-    unfold p2wpkh_encode, p2wpkh_decode. intros E. rewrite (segwit_rt _ _ _ _ E). rewrite c2v_ok.
-    cbn [bind Ok]. rewrite N.eqb_refl. reflexivity.
+    unfold p2wpkh_encode, p2wpkh_decode. intros Hh Hp E. rewrite (segwit_rt _ _ _ _ Hh (h160_ok pub) Hp E).
+    rewrite c2v_ok. cbn [bind Ok]. rewrite N.eqb_refl. reflexivity.
   Qed.
 
-  Theorem p2tr_decode_encode hrp pub s :
+  Theorem p2tr_decode_encode hrp pub s : hrp_cond hrp -> bytes_ok (taproot_tweak pub) ->
+    prog_cond p2tr_wit_ver (taproot_tweak pub) ->
     length (taproot_tweak pub) = (secp_compr_len - 1)%nat ->
     p2tr_encode segwit_enc taproot_tweak hrp pub = Ok s ->
     p2tr_decode segwit_dec hrp s = Ok (taproot_tweak pub).
   Proof.
-    unfold p2tr_encode, p2tr_decode. intros L E. rewrite (segwit_rt _ _ _ _ E). rewrite c2v_ok.
+    unfold p2tr_encode, p2tr_decode. intros Hh Hb Hp L E. rewrite (segwit_rt _ _ _ _ Hh Hb Hp E). rewrite c2v_ok.
     cbn [bind Ok]. rewrite validate_length_ok by exact L. cbn [bind Ok]. rewrite N.eqb_refl. reflexivity.
   Qed.
 
-  Theorem bch_p2pkh_decode_encode hrp nv pub s :
-    bch_p2pkh_encode sha256 ripemd160 cash_enc hrp nv pub = Ok s ->
-    bch_decode cash_dec hrp nv s = Ok (h160 pub).
+  Theorem bch_p2pkh_decode_encode hrp b pub s : hrp_cond hrp -> b < 256 ->
+    bch_p2pkh_encode sha256 ripemd160 cash_enc hrp [b] pub = Ok s ->
+    bch_decode cash_dec hrp [b] s = Ok (h160 pub).
   Proof.
-    unfold bch_decode, bch_p2pkh_encode. intros E. rewrite (cash_rt _ _ _ _ E). rewrite c2v_ok.
+    unfold bch_decode, bch_p2pkh_encode. intros Hh Hb E. rewrite (cash_rt _ _ _ _ Hh Hb (h160_ok pub) E). rewrite c2v_ok.
     cbn [bind Ok]. rewrite list_eqb_refl. cbn [negb]. rewrite validate_length_ok by apply h160_len. reflexivity.
   Qed.
 
-  Theorem bch_p2sh_decode_encode hrp nv pub s :
-    bch_p2sh_encode sha256 ripemd160 cash_enc hrp nv pub = Ok s ->
-    bch_decode cash_dec hrp nv s = Ok (p2sh_script_hash sha256 ripemd160 pub).
+  Theorem bch_p2sh_decode_encode hrp b pub s : hrp_cond hrp -> b < 256 ->
+    bch_p2sh_encode sha256 ripemd160 cash_enc hrp [b] pub = Ok s ->
+    bch_decode cash_dec hrp [b] s = Ok (p2sh_script_hash sha256 ripemd160 pub).
   Proof.
-    unfold bch_decode, bch_p2sh_encode. intros E. rewrite (cash_rt _ _ _ _ E). rewrite c2v_ok.
+    unfold bch_decode, bch_p2sh_encode. intros Hh Hb E.
+    assert (Hs : bytes_ok (p2sh_script_hash sha256 ripemd160 pub)) by (unfold p2sh_script_hash; apply h160_ok).
+    rewrite (cash_rt _ _ _ _ Hh Hb Hs E). rewrite c2v_ok.
     cbn [bind Ok]. rewrite list_eqb_refl. cbn [negb].
     rewrite validate_length_ok by (unfold p2sh_script_hash; apply h160_len). reflexivity.
   Qed.
